@@ -843,6 +843,7 @@ int polyspace::Parser::parseRange(const std::string& comment, std::string::size_
         pos = endpos;
         return ret;
     } catch (const std::invalid_argument &) {}
+    catch (const std::out_of_range &) {}   // a range that does not fit an int is no range
     return 0;
 }
 
